@@ -51,6 +51,10 @@ def gen_uist_order(rng, malformed=False):
         elif price is None:
             price = rng.choice([None, 100.0])     # market order carrying a price
         via = "json"
+    if via == "json" and not malformed and price is not None and rng.random() < 0.05:
+        # `price` is an Option on the wire: a limit / stop order deserialised with "price": null is a legal message
+        # (Option ordering: None < Some(_), so a limit sell / stop buy fires at once and a limit buy / stop sell never)
+        price = None
     o = dict(type=t, symbol=sym, shares=f2b(shares), price=None if price is None else f2b(price), via=via)
     if via == "json" and rng.random() < 0.15:
         # a client re-submitting an Order object it got back from a tick: order_id already set
@@ -88,7 +92,7 @@ def gen_uist_scenario(rng, n_ops=None, malformed=False, batch=None, weird=False)
             else:
                 oid = rng.choice([inserted + 7, 10 ** 6, 2 ** 63])
             ops.append(dict(op="delete", id=oid))
-    return dict(kind="uist", ops=ops)
+    return dict(kind="uist", ops=ops, via_default=rng.random() < 0.3)   # UistV1::default() instead of ::new()
 
 
 def uist_batch(rng, n, arrangement):
@@ -160,6 +164,14 @@ def gen_jura_order(rng, malformed=False, grid=GRID):
         ot = dict(Trigger=dict(trigger_px=f2b(trig), is_market=rng.random() < 0.5, tpsl=rng.choice(["Tp", "Sl"])))
     o = dict(asset=asset, is_buy=is_buy, limit_px=fmt_px(px), sz=sz, reduce_only=rng.random() < 0.2,
              cloid=rng.choice([None, None, "c1", "xyz"]), order_type=ot)
+    if not malformed and rng.random() < 0.1:
+        # prices and sizes travel as strings; anything str::parse::<f64>() accepts is a legal message: infinities (a buy
+        # "at any price"), NaN (never comparable), exponents, signs, bare points, magnitudes that over/underflow
+        unusual = ["inf", "infinity", "-inf", "NaN", "1e2", ".5", "5.", "+7.5", "-3", "1e-400", "1e400", "1E1"]
+        if rng.random() < 0.7:
+            o["limit_px"] = rng.choice(unusual)
+        else:
+            o["sz"] = rng.choice(["inf", "NaN", "1e1", ".5", "+2", "1e400"])
     if malformed:
         k = rng.random()
         if k < 0.25:
@@ -197,7 +209,7 @@ def gen_jura_scenario(rng, n_ops=None, malformed=False, batch=None):
             oid = rng.randrange(inserted + 2) if k < 0.8 else rng.choice([inserted + 9, 2 ** 63])
             asset = rng.choice(ASSETS) if rng.random() < 0.8 else 5
             ops.append(dict(op="delete", id=oid, asset=asset))
-    return dict(kind="jura", ops=ops)
+    return dict(kind="jura", ops=ops, via_default=rng.random() < 0.3)   # JuraV1::default() instead of ::new()
 
 
 def jura_batch(rng, n, arrangement):
